@@ -878,7 +878,374 @@ theorem g_arith {ι : Type} {d : List Nat} {Z : List ι} (hZ : Z.length = prod d
     rw [hsb] at this
     simpa [sta'.tracked, stb.tracked] using this
 
+/-- **the graph `clip(x, l, u)` builds**: five nodes `x⁰`, `lower = l·x⁰`, `upper = u·x⁰`, `xmin = ElMin(x, upper)`,
+    `ElMax(lower, xmin)`, with their values over `ℝ` and their back edges -/
+theorem g_clip {ι : Type} {d : List Nat} {Z : List ι} (hZ : Z.length = prod d) (hd : ∀ x ∈ d, 0 < x) {f : ι → ℝ}
+    (hx : St H x ⟨d, Z.map f⟩ trx esx) (l u : ℝ) :
+    ∃ H', clip x l u H = .ok (H.size + 4, H') ∧ Extends H H' ∧ H'.size = H.size + 5 ∧
+      St H' H.size ⟨d, Z.map (fun _ => 1)⟩ trx [⟨x, .powX x 0⟩] ∧
+      St H' (H.size + 1) ⟨d, Z.map (fun _ => l)⟩ trx [⟨H.size, .scaleX l⟩] ∧
+      St H' (H.size + 2) ⟨d, Z.map (fun _ => u)⟩ trx [⟨H.size, .scaleX u⟩] ∧
+      St H' (H.size + 3) ⟨d, Z.map (fun z => min (f z) u)⟩ trx
+        [⟨x, .elext (H.size + 3) x (H.size + 2)⟩, ⟨H.size + 2, .elext (H.size + 3) (H.size + 2) x⟩] ∧
+      St H' (H.size + 4) ⟨d, Z.map (fun z => max l (min (f z) u))⟩ trx
+        [⟨H.size + 1, .elext (H.size + 4) (H.size + 1) (H.size + 3)⟩,
+         ⟨H.size + 3, .elext (H.size + 4) (H.size + 3) (H.size + 1)⟩] := by
+  obtain ⟨H1, r1, e1, s1, st1⟩ := g_pow hx (Scalar.zero : ℝ)
+  have v1 : vPow (⟨d, Z.map f⟩ : Tensor ℝ) Scalar.zero = ⟨d, Z.map (fun _ => 1)⟩ := by
+    simp only [vPow, Tensor.map, List.map_map, Function.comp_def, pow_eq, zero_eq, Real.rpow_zero]
+  rw [v1] at st1
+  obtain ⟨H2, r2, e2, s2, st2⟩ := g_scale st1 l
+  have v2 : ∀ a : ℝ, vScale (⟨d, Z.map (fun _ => (1 : ℝ))⟩ : Tensor ℝ) a = ⟨d, Z.map (fun _ => a)⟩ := by
+    intro a
+    simp only [vScale, Tensor.map, List.map_map, Function.comp_def, mul_eq, mul_one]
+  rw [v2] at st2
+  obtain ⟨H3, r3, e3, s3, st3⟩ := g_scale (st1.mono e2) u
+  rw [v2] at st3
+  obtain ⟨H4, r4, e4, s4, st4⟩ := g_ext .elmin (Or.inr rfl) ((hx.mono (e1.trans e2)).mono e3) st3 _
+    (vCmp_same .elmin _ _ (wf_map hZ hd f) (wf_map hZ hd _) rfl)
+  simp only [C14.zipWith_maps, Cmp.fn, min_eq, Bool.or_self] at st4
+  obtain ⟨H5, r5, e5, s5, st5⟩ := g_ext .elmax (Or.inl rfl) ((st2.mono e3).mono e4) st4 _
+    (vCmp_same .elmax _ _ (wf_map hZ hd _) (wf_map hZ hd _) rfl)
+  simp only [C14.zipWith_maps, Cmp.fn, max_eq, Bool.or_self] at st5
+  have hs1 : H1.size = H.size + 1 := s1
+  have hs2 : H2.size = H.size + 2 := by rw [s2, hs1]
+  have hs3 : H3.size = H.size + 3 := by rw [s3, hs2]
+  have hs4 : H4.size = H.size + 4 := by rw [s4, hs3]
+  have hs5 : H5.size = H.size + 5 := by rw [s5, hs4]
+  have z0 : (Scalar.zero : ℝ) = 0 := zero_eq
+  refine ⟨H5, ?_, (((e1.trans e2).trans e3).trans e4).trans e5, hs5, ?_, ?_, ?_, ?_, ?_⟩
+  · unfold clip
+    rw [bind_run r1, bind_run r2, bind_run r3, bind_run r4, r5, hs4]
+  · have := st1.mono (((e2.trans e3).trans e4).trans e5)
+    rwa [z0] at this
+  · have := st2.mono ((e3.trans e4).trans e5)
+    rwa [hs1] at this
+  · have := st3.mono (e4.trans e5)
+    rwa [hs2] at this
+  · have := st4.mono e5
+    rwa [hs3, hs2] at this
+  · rwa [hs4, hs3, hs1] at st5
+
 end GraphOps
+
+/-- `rs` are the rules on consecutive back edges leading from node `a` to node `c`, every node on the way tracked
+    (so that back-propagation follows each of these edges, `C01.backprop_adjoint`) -/
+inductive BackPath (H : Heap ℝ) : Nat → List (Rule ℝ) → Nat → Prop
+  | nil (a : Nat) : BackPath H a [] a
+  | cons {a b c : Nat} {r : Rule ℝ} {rs : List (Rule ℝ)} :
+      (⟨b, r⟩ : Edge ℝ) ∈ (H.ctx a).edges → H.tracked b = true → BackPath H b rs c → BackPath H a (r :: rs) c
+
+theorem BackPath.step {H : Heap ℝ} {a b c : Nat} {v vb : Tensor ℝ} {es esb : List (Edge ℝ)} {r : Rule ℝ}
+    {rs : List (Rule ℝ)} (ha : St H a v true es) (hm : (⟨b, r⟩ : Edge ℝ) ∈ es) (hb : St H b vb true esb)
+    (rest : BackPath H b rs c) : BackPath H a (r :: rs) c :=
+  .cons (by rw [ha.edges rfl]; exact hm) hb.tracked rest
+
+theorem vPow_zero_map {ι : Type} (d : List Nat) (Z : List ι) (f : ι → ℝ) :
+    vPow (⟨d, Z.map f⟩ : Tensor ℝ) Scalar.zero = ⟨d, Z.map (fun _ => 1)⟩ := by
+  simp only [vPow, Tensor.map, List.map_map, Function.comp_def, pow_eq, zero_eq, Real.rpow_zero]
+
+theorem vLog_map {ι : Type} (d : List Nat) (Z : List ι) (f : ι → ℝ) :
+    vUnary .log (⟨d, Z.map f⟩ : Tensor ℝ) = ⟨d, Z.map (fun z => Real.log (f z))⟩ := by
+  simp only [vUnary, Tensor.map, List.map_map, Function.comp_def, Unary.fn, log_eq]
+
+/-- **the graph `lossCompute .bce` builds** on a tracked, unspent prediction `p` and an unspent target `t` (rank 1,
+    length `n`): the run succeeds, the nodes `N` between the loss and `p` hold the values `bce_local_vjp` assumes,
+    and the back edges carry exactly the rules of the three paths — loss → `p̂` through `log p̂`, loss → `p̂` through
+    `log(1 − p̂)`, and `p̂` → `p` through the clip. -/
+theorem bce_graph (H : Heap ℝ) (p t n : Nat) (hp : p < H.size) (ht : t < H.size)
+    (wp : (H.val p).WF) (wt : (H.val t).WF) (dp : (H.val p).dims = [n]) (dt : (H.val t).dims = [n])
+    (hpt : H.tracked p = true) (hpc : H.dirty p = false) (htc : H.dirty t = false) :
+    ∃ r H' N, lossCompute Loss.bce (some p) (some t) H = .ok (r, H') ∧ Extends H H' ∧ N.p = p ∧
+      BceNodeVals H' N n (H.val t).data (H.val p).data ∧
+      BackPath H' r N.pathA N.ph ∧ BackPath H' r N.pathB N.ph ∧ BackPath H' N.ph N.pathClip p := by
+  have hn : 0 < n := wp.2 n (by rw [dp]; simp)
+  have lp : (H.val p).data.length = n := by rw [wp.1, dp]; simp [prod]
+  have lt' : (H.val t).data.length = n := by rw [wt.1, dt]; simp [prod]
+  have hZ : ((H.val t).data.zip (H.val p).data).length = prod [n] := by simp [prod, lp, lt']
+  have hd : ∀ y ∈ [n], 0 < y := by simpa using hn
+  have t0 : St H t ⟨[n], ((H.val t).data.zip (H.val p).data).map (fun z => z.1)⟩ (H.tracked t) (H.ctx t).edges :=
+    ⟨ht, by rw [List.map_fst_zip (by omega), ← dt], htc, rfl, fun _ => rfl⟩
+  have p0 : St H p ⟨[n], ((H.val t).data.zip (H.val p).data).map (fun z => z.2)⟩ true (H.ctx p).edges :=
+    ⟨hp, by rw [List.map_snd_zip (by omega), ← dp], hpc, hpt, fun _ => rfl⟩
+  -- 1. clip the targets
+  obtain ⟨H1, r1, e1, _, _, _, _, _, yt1⟩ := g_clip hZ hd t0 (Scalar.zero : ℝ) Scalar.one
+  have hth : (fun z : ℝ × ℝ => max (Scalar.zero : ℝ) (min z.1 Scalar.one)) = fun z => tHat z.1 := by
+    funext z; simp only [tHat, clipR, zero_eq, one_eq]
+  rw [hth] at yt1
+  -- 2. clip the predictions
+  obtain ⟨H2, r2, e2, _, _, lo2, up2, pmin2, ph2⟩ := g_clip hZ hd (p0.mono e1) (Scalar.eps : ℝ) Scalar.oneMinusEps
+  have hph : (fun z : ℝ × ℝ => max (Scalar.eps : ℝ) (min z.2 Scalar.oneMinusEps)) = fun z => pHat z.2 := by
+    funext z; simp only [pHat, clipR, C12x.eps_val, C12x.oneMinusEps_val]
+  rw [hph] at ph2
+  rw [C12x.eps_val] at lo2
+  rw [C12x.oneMinusEps_val] at up2 pmin2
+  -- 3. lg = log p̂
+  obtain ⟨H3, r3, e3, _, lg3⟩ := g_log ph2
+  rw [vLog_map] at lg3
+  -- 4. s1 = t̂ · lg
+  obtain ⟨H4, r4, e4, _, tb4, lgb4, s1_4⟩ := g_arith hZ hd .mul (yt1.mono (e2.trans e3)) lg3
+  rw [Bool.or_true] at s1_4
+  -- 5. o = p̂⁰
+  obtain ⟨H5, r5, e5, _, o5⟩ := g_pow (ph2.mono (e3.trans e4)) (Scalar.zero : ℝ)
+  rw [vPow_zero_map] at o5
+  -- 6. t2 = o − t̂
+  obtain ⟨H6, r6, e6, _, _, _, t2_6⟩ := g_arith hZ hd .sub o5 (yt1.mono (((e2.trans e3).trans e4).trans e5))
+  rw [Bool.true_or] at t2_6
+  -- 7. y2 = o − p̂
+  obtain ⟨H7, r7, e7, _, _, phb7, y2_7⟩ := g_arith hZ hd .sub (o5.mono e6)
+    (ph2.mono (((e3.trans e4).trans e5).trans e6))
+  rw [Bool.true_or] at y2_7
+  -- 8. lg2 = log y2
+  obtain ⟨H8, r8, e8, _, lg2_8⟩ := g_log y2_7
+  rw [vLog_map] at lg2_8
+  -- 9. s2 = t2 · lg2
+  obtain ⟨H9, r9, e9, _, t2b9, lg2b9, s2_9⟩ := g_arith hZ hd .mul (t2_6.mono (e7.trans e8)) lg2_8
+  rw [Bool.or_true] at s2_9
+  -- 10. l = s1 + s2
+  obtain ⟨H10, r10, e10, _, s1b10, s2b10, l10⟩ := g_arith hZ hd .add
+    (s1_4.mono ((((e5.trans e6).trans e7).trans e8).trans e9)) s2_9
+  rw [Bool.or_true] at l10
+  -- 11. ln = −l
+  obtain ⟨H11, r11, e11, _, ln11⟩ := g_scale l10 (Scalar.neg Scalar.one : ℝ)
+  have wl : (vScale (⟨[n], ((H.val t).data.zip (H.val p).data).map (fun z => Arith.add.fn
+      (Arith.mul.fn (tHat z.1) (Real.log (pHat z.2)))
+      (Arith.mul.fn (Arith.sub.fn 1 (tHat z.1)) (Real.log (Arith.sub.fn 1 (pHat z.2)))))⟩ : Tensor ℝ)
+      (Scalar.neg Scalar.one)).WF := map_wf _ _ (wf_map hZ hd _)
+  -- 12. loss = mean(ln)
+  obtain ⟨H12, r12, e12, _, r_12⟩ := g_along ln11 .mean 0 _ (C12.vAlong_rank1 .mean _ n rfl wl)
+  have hneg : (Scalar.neg Scalar.one : ℝ) = -1 := by simp only [neg_eq, one_eq]
+  rw [hneg] at ln11
+  have hrule : alongRule (α := ℝ) .mean H10.size H11.size (0 : Int).toNat = .avgAlongX H10.size 0 := rfl
+  rw [hrule] at r_12
+  -- cumulative extensions to the final heap
+  have f11 : Extends H11 H12 := e12
+  have f10 : Extends H10 H12 := e11.trans f11
+  have f9 : Extends H9 H12 := e10.trans f10
+  have f8 : Extends H8 H12 := e9.trans f9
+  have f7 : Extends H7 H12 := e8.trans f8
+  have f6 : Extends H6 H12 := e7.trans f7
+  have f5 : Extends H5 H12 := e6.trans f6
+  have f4 : Extends H4 H12 := e5.trans f5
+  have f3 : Extends H3 H12 := e4.trans f4
+  have f2 : Extends H2 H12 := e3.trans f3
+  have f1 : Extends H1 H12 := e2.trans f2
+  have f0 : Extends H H12 := e1.trans f1
+  have Pp := p0.mono f0
+  have Plo := lo2.mono f2
+  have Pup := up2.mono f2
+  have Ppmin := pmin2.mono f2
+  have Pph := ph2.mono f2
+  have Plg := lg3.mono f3
+  have Ptb := tb4.mono f4
+  have Plgb := lgb4.mono f4
+  have Ps1 := s1_4.mono f4
+  have Pphb := phb7.mono f7
+  have Py2 := y2_7.mono f7
+  have Plg2 := lg2_8.mono f8
+  have Pt2b := t2b9.mono f9
+  have Plg2b := lg2b9.mono f9
+  have Ps2 := s2_9.mono f9
+  have Ps1b := s1b10.mono f10
+  have Ps2b := s2b10.mono f10
+  have Pl := l10.mono f10
+  have Pln := ln11.mono f11
+  let N : BceIds := {
+    p := p, lo := H1.size + 1, up := H1.size + 2, pmin := H1.size + 3, ph := H1.size + 4,
+    lg := H2.size, tb := H3.size, lgb := H3.size + 1, s1 := H3.size + 2, phb := H6.size + 1, y2 := H6.size + 2,
+    lg2 := H7.size, t2b := H8.size, lg2b := H8.size + 1, s2 := H8.size + 2, s1b := H9.size, s2b := H9.size + 1,
+    ln := H10.size }
+  have hT := lt'
+  have hP := lp
+  refine ⟨H11.size, H12, N, ?_, f0, rfl, ?_, ?_, ?_, ?_⟩
+  · unfold lossCompute
+    rw [bind_run (show (getHeap : HM ℝ (Heap ℝ)) H = .ok (H, H) from rfl)]
+    have hv : lossValid H Loss.bce (some p) (some t) = .ok (p, t) := by
+      simp [lossValid, dp, dt]
+    rw [bind_run (show (liftOut (lossValid H Loss.bce (some p) (some t)) : HM ℝ (Nat × Nat)) H = .ok ((p, t), H) by rw [hv]; rfl)]
+    simp only []
+    rw [bind_run r1, bind_run r2, bind_run r3, bind_run r4, bind_run r5, bind_run r6,
+      bind_run r7, bind_run r8, bind_run r9, bind_run r10, bind_run r11]
+    exact r12
+  · exact {
+      p := by rw [Pp.val, List.map_snd_zip (by omega)]
+      lo := by rw [Plo.val, map_zip_snd (fun _ => (1 : ℝ) / 10 ^ 12) _ _ (by omega)]
+      up := by rw [Pup.val, map_zip_snd (fun _ => (1 : ℝ) - 1 / 10 ^ 12) _ _ (by omega)]
+      pmin := by rw [Ppmin.val, map_zip_snd (fun pv => min pv ((1 : ℝ) - 1 / 10 ^ 12)) _ _ (by omega)]
+      ph := by rw [Pph.val, map_zip_snd pHat _ _ (by omega)]
+      tb := by rw [Ptb.val, map_zip_fst tHat _ _ (by omega)]
+      t2b := by
+        rw [Pt2b.val, ← map_zip_fst (fun tv => 1 - tHat tv) _ (H.val p).data (by omega)]
+        simp only [Arith.fn, sub_eq]
+      y2 := by
+        rw [Py2.val, ← map_zip_snd (fun pv => 1 - pHat pv) (H.val t).data _ (by omega)]
+        simp only [Arith.fn, sub_eq]
+      lg := by rw [Plg.val]
+      lgb := by rw [Plgb.val]
+      s1 := by rw [Ps1.val]
+      s1b := by rw [Ps1b.val]
+      phb := by rw [Pphb.val]
+      lg2 := by rw [Plg2.val]
+      lg2b := by rw [Plg2b.val]
+      s2 := by rw [Ps2.val]
+      s2b := by rw [Ps2b.val]
+      ln := by rw [Pln.val]; rfl }
+  · exact .step r_12 (by simp [N]) Pln (.step Pln (by simp [N]) Pl (.step Pl (by simp [arithEdges, N]) Ps1b
+      (.step Ps1b (by simp [N]) Ps1 (.step Ps1 (by simp [arithEdges, N]) Plgb (.step Plgb (by simp [N]) Plg
+      (.step Plg (by simp [N]) Pph (.nil _)))))))
+  · exact .step r_12 (by simp [N]) Pln (.step Pln (by simp [N]) Pl (.step Pl (by simp [arithEdges, N]) Ps2b
+      (.step Ps2b (by simp [N]) Ps2 (.step Ps2 (by simp [arithEdges, N]) Plg2b (.step Plg2b (by simp [N]) Plg2
+      (.step Plg2 (by simp [N]) Py2 (.step Py2 (by simp [arithEdges, N]) Pphb (.step Pphb (by simp [N]) Pph (.nil _)))))))))
+  · exact .step Pph (by simp [N]) Ppmin (.step Ppmin (by simp [N]) Pp (.nil _))
+
+/-- **the graph `lossCompute .ce` builds** on a tracked, unspent prediction `p` and an unspent target `t` (rank 2,
+    `m` rows, `n` classes): the run succeeds, the nodes `N` between the loss and `p` hold the values `ce_local_vjp`
+    assumes, and the back edges carry exactly the rules of the path loss → `p̂` and of the clip path `p̂` → `p`. -/
+theorem ce_graph (H : Heap ℝ) (p t m n : Nat) (hp : p < H.size) (ht : t < H.size)
+    (wp : (H.val p).WF) (wt : (H.val t).WF) (dp : (H.val p).dims = [m, n]) (dt : (H.val t).dims = [m, n])
+    (hpt : H.tracked p = true) (hpc : H.dirty p = false) (htc : H.dirty t = false) :
+    ∃ r H' N, lossCompute Loss.ce (some p) (some t) H = .ok (r, H') ∧ Extends H H' ∧ N.p = p ∧
+      CeNodeVals H' N m n (H.val t).data (H.val p).data ∧
+      BackPath H' r N.pathA N.ph ∧ BackPath H' N.ph N.pathClip p := by
+  have hm : 0 < m := wp.2 m (by rw [dp]; simp)
+  have hn : 0 < n := wp.2 n (by rw [dp]; simp)
+  have lp : (H.val p).data.length = m * n := by rw [wp.1, dp]; simp [prod]
+  have lt' : (H.val t).data.length = m * n := by rw [wt.1, dt]; simp [prod]
+  have hZ : ((H.val t).data.zip (H.val p).data).length = prod [m, n] := by simp [prod, lp, lt']
+  have hd : ∀ y ∈ [m, n], 0 < y := by simp; omega
+  have t0 : St H t ⟨[m, n], ((H.val t).data.zip (H.val p).data).map (fun z => z.1)⟩ (H.tracked t) (H.ctx t).edges :=
+    ⟨ht, by rw [List.map_fst_zip (by omega), ← dt], htc, rfl, fun _ => rfl⟩
+  have p0 : St H p ⟨[m, n], ((H.val t).data.zip (H.val p).data).map (fun z => z.2)⟩ true (H.ctx p).edges :=
+    ⟨hp, by rw [List.map_snd_zip (by omega), ← dp], hpc, hpt, fun _ => rfl⟩
+  obtain ⟨H1, r1, e1, _, _, _, _, _, yt1⟩ := g_clip hZ hd t0 (Scalar.zero : ℝ) Scalar.one
+  have hth : (fun z : ℝ × ℝ => max (Scalar.zero : ℝ) (min z.1 Scalar.one)) = fun z => tHat z.1 := by
+    funext z; simp only [tHat, clipR, zero_eq, one_eq]
+  rw [hth] at yt1
+  obtain ⟨H2, r2, e2, _, _, lo2, up2, pmin2, ph2⟩ := g_clip hZ hd (p0.mono e1) (Scalar.eps : ℝ) Scalar.oneMinusEps
+  have hph : (fun z : ℝ × ℝ => max (Scalar.eps : ℝ) (min z.2 Scalar.oneMinusEps)) = fun z => pHat z.2 := by
+    funext z; simp only [pHat, clipR, C12x.eps_val, C12x.oneMinusEps_val]
+  rw [hph] at ph2
+  rw [C12x.eps_val] at lo2
+  rw [C12x.oneMinusEps_val] at up2 pmin2
+  obtain ⟨H3, r3, e3, _, lg3⟩ := g_log ph2
+  rw [vLog_map] at lg3
+  obtain ⟨H4, r4, e4, _, tb4, lgb4, s4⟩ := g_arith hZ hd .mul (yt1.mono (e2.trans e3)) lg3
+  rw [Bool.or_true] at s4
+  -- SumAlong(1)
+  obtain ⟨H5, r5, e5, _, l5⟩ := g_along s4 .sum 1 _
+    (C12x.vAlong_rank2_dim1 .sum _ m n rfl (wf_map hZ hd _))
+  -- Scale(−1)
+  obtain ⟨H6, r6, e6, _, ln6⟩ := g_scale l5 (Scalar.neg Scalar.one : ℝ)
+  have hZ' : (List.range m).length = prod [m] := by simp [prod]
+  have hd' : ∀ y ∈ [m], 0 < y := by simpa using hm
+  -- MeanAlong(0)
+  obtain ⟨H7, r7, e7, _, r_7⟩ := g_along ln6 .mean 0 _
+    (C12.vAlong_rank1 .mean _ m rfl (map_wf _ _ (wf_map hZ' hd' _)))
+  have hneg : (Scalar.neg Scalar.one : ℝ) = -1 := by simp only [neg_eq, one_eq]
+  rw [hneg] at ln6
+  have hrule1 : alongRule (α := ℝ) .sum (H3.size + 2) H4.size (1 : Int).toNat = .sumAlongX (H3.size + 2) 1 := rfl
+  rw [hrule1] at l5
+  have hrule : alongRule (α := ℝ) .mean H5.size H6.size (0 : Int).toNat = .avgAlongX H5.size 0 := rfl
+  rw [hrule] at r_7
+  have f6 : Extends H6 H7 := e7
+  have f5 : Extends H5 H7 := e6.trans f6
+  have f4 : Extends H4 H7 := e5.trans f5
+  have f3 : Extends H3 H7 := e4.trans f4
+  have f2 : Extends H2 H7 := e3.trans f3
+  have f1 : Extends H1 H7 := e2.trans f2
+  have f0 : Extends H H7 := e1.trans f1
+  have Pp := p0.mono f0
+  have Plo := lo2.mono f2
+  have Pup := up2.mono f2
+  have Ppmin := pmin2.mono f2
+  have Pph := ph2.mono f2
+  have Plg := lg3.mono f3
+  have Ptb := tb4.mono f4
+  have Plgb := lgb4.mono f4
+  have Ps := s4.mono f4
+  have Pl := l5.mono f5
+  have Pln := ln6.mono f6
+  let N : CeIds := {
+    p := p, lo := H1.size + 1, up := H1.size + 2, pmin := H1.size + 3, ph := H1.size + 4,
+    lg := H2.size, tb := H3.size, lgb := H3.size + 1, s := H3.size + 2, ln := H5.size }
+  refine ⟨H6.size, H7, N, ?_, f0, rfl, ?_, ?_, ?_⟩
+  · unfold lossCompute
+    rw [bind_run (show (getHeap : HM ℝ (Heap ℝ)) H = .ok (H, H) from rfl)]
+    have hv : lossValid H Loss.ce (some p) (some t) = .ok (p, t) := by
+      simp [lossValid, dp, dt]
+    rw [bind_run (show (liftOut (lossValid H Loss.ce (some p) (some t)) : HM ℝ (Nat × Nat)) H = .ok ((p, t), H) by rw [hv]; rfl)]
+    simp only []
+    rw [bind_run r1, bind_run r2, bind_run r3, bind_run r4, bind_run r5, bind_run r6]
+    exact r7
+  · exact {
+      p := by rw [Pp.val, List.map_snd_zip (by omega)]
+      lo := by rw [Plo.val, map_zip_snd (fun _ => (1 : ℝ) / 10 ^ 12) _ _ (by omega)]
+      up := by rw [Pup.val, map_zip_snd (fun _ => (1 : ℝ) - 1 / 10 ^ 12) _ _ (by omega)]
+      pmin := by rw [Ppmin.val, map_zip_snd (fun pv => min pv ((1 : ℝ) - 1 / 10 ^ 12)) _ _ (by omega)]
+      ph := by rw [Pph.val, map_zip_snd pHat _ _ (by omega)]
+      tb := by rw [Ptb.val, map_zip_fst tHat _ _ (by omega)]
+      lg := by rw [Plg.val]
+      lgb := by rw [Plgb.val]
+      s := by rw [Ps.val]
+      ln := by rw [Pln.val]; rfl }
+  · exact .step r_7 (by simp [N]) Pln (.step Pln (by simp [N]) Pl (.step Pl (by simp [N]) Ps
+      (.step Ps (by simp [arithEdges, N]) Plgb (.step Plgb (by simp [N]) Plg (.step Plg (by simp [N]) Pph (.nil _))))))
+  · exact .step Pph (by simp [N]) Ppmin (.step Ppmin (by simp [N]) Pp (.nil _))
+
+/-! ## End to end: forward pass of the loss, then the local backward pass -/
+
+/-- **BCE**: for every batch size and all values — run `lossCompute .bce` on a tracked prediction; then along the back
+    edges the run created (`BackPath`) the Model's backward rules, seeded with `c` on the loss, deliver to the
+    prediction the derivative of the BCE formula (`bce_formula_deriv`, with `t̂ = clip(t,0,1)`) wherever the prediction
+    is strictly inside the clip band, and 0 wherever it is strictly outside. -/
+theorem bce_gradient (bm : BMode) (H : Heap ℝ) (p t n : Nat) (hp : p < H.size) (ht : t < H.size)
+    (wp : (H.val p).WF) (wt : (H.val t).WF) (dp : (H.val p).dims = [n]) (dt : (H.val t).dims = [n])
+    (hpt : H.tracked p = true) (hpc : H.dirty p = false) (htc : H.dirty t = false) (c : ℝ) :
+    ∃ r H' ph pathA pathB pathClip A B G K,
+      lossCompute Loss.bce (some p) (some t) H = .ok (r, H') ∧
+      BackPath H' r pathA ph ∧ BackPath H' r pathB ph ∧ BackPath H' ph pathClip p ∧
+      pullPath bm H' pathA ⟨[], [c]⟩ = .ok A ∧ pullPath bm H' pathB ⟨[], [c]⟩ = .ok B ∧
+      vArith .add A B = .ok G ∧ pullPath bm H' pathClip G = .ok K ∧ K.dims = [n] ∧ K.data.length = n ∧
+      ∀ (i : Nat) (hi : i < n) (tv pv : ℝ), (H.val t).data[i]? = some tv → (H.val p).data[i]? = some pv →
+        (1 / 10 ^ 12 + 1 / 10 ^ 240 < pv → pv < 1 - 1 / 10 ^ 12 - 1 / 10 ^ 240 →
+          K.data[i]? = some (c * (-1 / (n : ℝ)) * (tHat tv / pv - (1 - tHat tv) / (1 - pv)))) ∧
+        (pv < 1 / 10 ^ 12 - 1 / 10 ^ 240 ∨ 1 - 1 / 10 ^ 12 + 1 / 10 ^ 240 < pv → K.data[i]? = some 0) := by
+  obtain ⟨r, H', N, hrun, _, hNp, hv, pa, pb, pc⟩ := bce_graph H p t n hp ht wp wt dp dt hpt hpc htc
+  have hn : 0 < n := wp.2 n (by rw [dp]; simp)
+  have lp : (H.val p).data.length = n := by rw [wp.1, dp]; simp [prod]
+  have lt' : (H.val t).data.length = n := by rw [wt.1, dt]; simp [prod]
+  obtain ⟨A, B, G, K, h1, h2, h3, h4, h5, h6, h7⟩ :=
+    bce_local_vjp_cases bm H' N n hn (H.val t).data (H.val p).data lt' lp hv c
+  exact ⟨r, H', N.ph, N.pathA, N.pathB, N.pathClip, A, B, G, K, hrun, pa, pb, pc, h1, h2, h3, h4, h5, h6, h7⟩
+
+/-- **CE**: the same for `lossCompute .ce` on `m × n` inputs: element `(i, j)` of the prediction receives
+    `c · (−1/m) · t̂ᵢⱼ / pᵢⱼ` (the derivative of the CE formula, `ce_formula_deriv`) strictly inside the band, 0 strictly
+    outside — for both modes of the Broadcast rule. -/
+theorem ce_gradient (bm : BMode) (H : Heap ℝ) (p t m n : Nat) (hp : p < H.size) (ht : t < H.size)
+    (wp : (H.val p).WF) (wt : (H.val t).WF) (dp : (H.val p).dims = [m, n]) (dt : (H.val t).dims = [m, n])
+    (hpt : H.tracked p = true) (hpc : H.dirty p = false) (htc : H.dirty t = false) (c : ℝ) :
+    ∃ r H' ph pathA pathClip G K,
+      lossCompute Loss.ce (some p) (some t) H = .ok (r, H') ∧
+      BackPath H' r pathA ph ∧ BackPath H' ph pathClip p ∧
+      pullPath bm H' pathA ⟨[], [c]⟩ = .ok G ∧ pullPath bm H' pathClip G = .ok K ∧ K.dims = [m, n] ∧
+      ∀ (i j : Nat) (hi : i < m) (hj : j < n) (tv pv : ℝ),
+        (H.val t).at? [i, j] = some tv → (H.val p).at? [i, j] = some pv →
+        (1 / 10 ^ 12 + 1 / 10 ^ 240 < pv → pv < 1 - 1 / 10 ^ 12 - 1 / 10 ^ 240 →
+          K.at? [i, j] = some (c * (-1 / (m : ℝ)) * (tHat tv / pv))) ∧
+        (pv < 1 / 10 ^ 12 - 1 / 10 ^ 240 ∨ 1 - 1 / 10 ^ 12 + 1 / 10 ^ 240 < pv → K.at? [i, j] = some 0) := by
+  obtain ⟨r, H', N, hrun, _, hNp, hv, pa, pc⟩ := ce_graph H p t m n hp ht wp wt dp dt hpt hpc htc
+  have hm : 0 < m := wp.2 m (by rw [dp]; simp)
+  have hn : 0 < n := wp.2 n (by rw [dp]; simp)
+  have lp : (H.val p).data.length = m * n := by rw [wp.1, dp]; simp [prod]
+  have lt' : (H.val t).data.length = m * n := by rw [wt.1, dt]; simp [prod]
+  obtain ⟨G, K, h1, h2, h3, h4⟩ := ce_local_vjp_cases bm H' N m n hm hn (H.val t).data (H.val p).data lt' lp hv c
+  refine ⟨r, H', N.ph, N.pathA, N.pathClip, G, K, hrun, pa, pc, h1, h2, h3, ?_⟩
+  intro i j hi hj tv pv htv hpv
+  have et : H.val t = ⟨[m, n], (H.val t).data⟩ := by rw [← dt]
+  have ep : H.val p = ⟨[m, n], (H.val p).data⟩ := by rw [← dp]
+  rw [et] at htv
+  rw [ep] at hpv
+  exact h4 i j hi hj tv pv htv hpv
 
 end C13x
 end Qeep
